@@ -56,6 +56,8 @@ def execute_guarded(prop, sc, limit_s=90):
     old = signal.signal(signal.SIGALRM, _alarm)
     signal.setitimer(signal.ITIMER_REAL, limit_s)
     cwd = os.getcwd()
+    seams.SimClock.total_advance = seams.SimClock.total_advance * 0
+    seams.SimClock.cumulative = seams.SimClock.cumulative * 0
     try:
         out = prop.execute(sc)
     except SimTimeout:
@@ -427,9 +429,9 @@ def run_check(pid, tier="quick", base_seed=0, n=None, workers=None, wall_cap=Non
                             agg["extra"][k] = agg["extra"].get(k, 0) + c
                         elif isinstance(c, list):
                             agg["extra"].setdefault(k, set()).update(map(str, c))
-                    if "scenario" in o and not o["violations"] and len(agg["samples"]) < 4:
-                        agg["samples"].append({"seed": o["seed"], "scenario": o["scenario"], "signature": o.get("sig")})
                     unk, kn = triage(findings, o["violations"])
+                    if "scenario" in o and not unk and len(agg["samples"]) < 4:
+                        agg["samples"].append({"seed": o["seed"], "scenario": o["scenario"], "signature": o.get("sig")})
                     for k, c in kn.items():
                         agg["known"][k] = agg["known"].get(k, 0) + c
                     for v in unk:
